@@ -7,6 +7,7 @@
 // feature F, -1). A small reference model (stored values + drop set + reported permutations) decides every view.
 #include "mldata.h"
 
+#include <nano/generator/elemwise_gradient.h>
 #include <nano/generator/pairwise_product.h>
 
 #include <set>
@@ -21,7 +22,7 @@ constexpr double NaN = std::numeric_limits<double>::quiet_NaN();
 
 struct gfeature_t
 {
-    int  kind{0};       // 0 sclass, 1 mclass, 2 scalar, 3 struct, 4 product
+    int  kind{0};       // 0 sclass, 1 mclass, 2 scalar, 3 struct, 4 product, 5 opaque (reference = the direct view captured at the start)
     int  src1{-1};      // schema index of the (first) source
     int  src2{-1};      // schema index of the second source (product)
     tensor_size_t classes{0};
@@ -35,6 +36,7 @@ struct model_t
     std::vector<gfeature_t>           features; // dataset feature order
     std::set<tensor_size_t>           dropped;
     std::map<tensor_size_t, indices_t> perms;   // feature -> permutation of all samples (as reported)
+    std::map<tensor_size_t, std::vector<std::vector<double>>> opaque; // feature -> per sample values of the initial direct view
     tensor_size_t                     columns{0};
 
     tensor_size_t src_sample(tensor_size_t f, tensor_size_t s) const
@@ -53,6 +55,10 @@ struct model_t
         const auto& g   = features[static_cast<size_t>(f)];
         const auto  src = static_cast<size_t>(src_sample(f, s));
         const auto& st  = source->stored();
+        if (g.kind == 5)
+        {
+            return opaque.at(f)[src];
+        }
         if (g.kind == 4)
         {
             const auto& a = st[static_cast<size_t>(g.src1)][src];
@@ -203,6 +209,7 @@ struct checker_t
         {
             const auto v = model.values(f, samples(i));
             const auto n = g.kind == 0 || g.kind == 2 || g.kind == 4 ? 1 : g.size;
+            // an opaque (generated) feature with a missing source is all-NaN, which the model keeps as such
             for (tensor_size_t k = 0; k < n; ++k)
             {
                 const auto   x    = static_cast<double>(got(i * n + k));
@@ -235,9 +242,10 @@ struct checker_t
             break;
         }
         case 3:
+        case 5:
         {
             struct_mem_t b;
-            check_select(samples, f, dataset.select(samples, f, b), "select(struct)");
+            check_select(samples, f, dataset.select(samples, f, b), g.kind == 3 ? "select(struct)" : "select(gradient)");
             break;
         }
         default:
@@ -261,6 +269,7 @@ void body(ctx_t& c)
     o.all_storage_types = true;
     o.max_classes       = r.coin(0.1) ? 300 : 7;
     o.target_kind       = -1;
+    o.image_structs     = r.coin(0.4);
     const auto schema   = vf::random_schema(r, o);
     auto       source   = vf::sim_datasource_t(schema, r.next(), r.coin(0.3) ? 0.0 : r.real(0.05, 0.6), true, 0); // (the library requires the target of every sample)
     source.load();
@@ -306,6 +315,12 @@ void body(ctx_t& c)
         stack += "product ";
         dataset.add<pairwise_product_generator_t>();
     }
+    if (o.image_structs && r.coin(0.6))
+    {
+        // decided by the iterator-vs-direct differential only: the reference is the direct view captured before the history
+        stack += "gradient ";
+        dataset.add<gradient_generator_t>();
+    }
 
     // reference model: dataset features are recognised by name (identity keeps the source descriptor, product names its pair)
     model_t model;
@@ -331,6 +346,29 @@ void body(ctx_t& c)
         else
         {
             const auto it = by_name.find(name);
+            if (it == by_name.end() && feature.is_struct())
+            {
+                // generated feature without an independent reference encoder (gradient): capture its direct view now
+                g.kind    = 5;
+                g.size    = ::nano::size(feature.dims());
+                g.columns = g.size;
+                const auto   all = arange(0, total);
+                struct_mem_t b;
+                const auto   v = dataset.select(all, f, b);
+                auto&        table = model.opaque[f];
+                table.resize(static_cast<size_t>(total));
+                for (tensor_size_t sidx = 0; sidx < total; ++sidx)
+                {
+                    for (tensor_size_t k = 0; k < g.size; ++k)
+                    {
+                        table[static_cast<size_t>(sidx)].push_back(v(sidx * g.size + k));
+                    }
+                }
+                model.features.push_back(g);
+                model.columns += g.columns;
+                c.probe("gradient_features");
+                continue;
+            }
             if (it == by_name.end())
             {
                 c.fail("bookkeeping", "dataset feature '" + name + "' does not correspond to a stored feature");
